@@ -176,7 +176,7 @@ def run(tier):
             'carrier(3 complete planted blocks)+small+60-buffer block+tail W=3 in64/out40',
             {'setenv': {'LBZIP2_VERIF_IN_GRANUL': '64', 'LBZIP2_VERIF_OUT_GRANUL': '40'}, 'nprio': 6, 'demote': 1}, policies='prio:6')
     dm1.run_pass(1)
-    dm2.run_pass(2, time_limit=(100 if quick else 900))
+    dm2.run_pass(2, time_limit=(100 if quick else min(900, chk.left() * 0.45)))
     dm1.finish_cov('')
     dm2.finish_cov('priority-change legs: strict-priority schedulers with 1 (all 720 orders of 6 threads) / 2 (orders up to worker symmetry) '
                    'priority-change points at any scheduling point.')
